@@ -29,13 +29,20 @@ def random_context(rng):
     stub = pick([start, stop])
     sstart = pick([start, stop]); sstop = sstart if stop == start else pick([start, stop, sstart])
     sstub = pick([start, stop, sstart, sstop])
+    # escape codes that repeat the escape byte itself (DLE doubling: STUB STUB stands for STUB) are inside the domain as well
+    if rng.random() < 0.3:
+        which = rng.randrange(3)
+        if which == 0: sstub = stub
+        elif which == 1 and stop != start and sstop != stub: sstart = stub
+        elif which == 2 and stop != start and sstart != stub: sstop = stub
+        if len({sstart, sstop, sstub}) < (3 if stop != start else 2): return random_context(rng)
     return "cx:" + ":".join(str(x) for x in (start, stop, stub, sstart, sstop, sstub))
 
 
-def build(ctx):
+def build(ctx, alt=False):
     R = core.REPO
-    return ctx.cxx("drv_gstuff", ["drv_gstuff.cpp", "drv_gstuff_v1.c", R + "/igris/protocols/gstuff.cpp",
-                                  R + "/igris/protocols/gstuff_v1/gstuff.c", R + "/igris/protocols/gstuff_v1/autorecv.c"])
+    return ctx.cxx("drv_gstuff" + ("_alt" if alt else ""), ["drv_gstuff.cpp", "drv_gstuff_v1.c", R + "/igris/protocols/gstuff.cpp",
+                                  R + "/igris/protocols/gstuff_v1/gstuff.c", R + "/igris/protocols/gstuff_v1/autorecv.c"], alt=alt)
 
 
 def fmt(v):
